@@ -64,6 +64,10 @@ CLAIMED = {
         text="SREs from a recursive Hypothesis grammar (depth <= 4-5: literals, strings, char sets, ranges, complements, any/nonl, seq, or, * + ? = >= **, non-greedy forms, submatches, bos/eos/bol/eol, w/nocase, w/case) plus an enumerated family of small SREs, each matched against ALL subject strings up to length 4 (quick) / 7 (thorough) over an alphabet chosen per SRE (abc / aAb / ab+newline); oracle: an independent span-set matcher in Python; checked: regexp-matches? <=> membership, regexp-matches agrees, regexp-search <=> some substring matches, overall and submatch spans delimit text matched by the corresponding subexpression, regexp-fold spans likewise; exploration only",
         note="SREs rejected at compile time are outside the supported subset; which valid match is preferred is not asserted; regexp-fold spans are not asserted for anchored SREs; two open known findings (non-greedy repetition in whole-string mode; or of char sets starting with a complement) are excluded by construction",
         technique="property-based differential testing against an independent reference matcher, exhaustive over subject strings up to a length bound"),
+    "C14": dict(
+        text="Hypothesis-generated library graphs (2-6 define-library files written to a scratch directory: uniquely tagged values, random export subsets, renamed exports, exported syntax-rules macros that expand into a private helper, re-exports through (only ...), a shared logging library called from every body) and import-set expressions (only / except / rename / prefix / drop-prefix nested to depth 4, valid by construction) loaded by a fresh chibi-scheme process per graph; oracle: a set-algebra model in Python, compared name by name ((eval 'n env) under guard) over every name of the graph under every prefix used: bound names must evaluate to the modelled tagged value and every other name must be unbound, exported macros must work while their helper stays unbound, each library body is logged once; exploration only",
+        note="trusted: the Python model of R7RS 5.2/5.6 import sets (drop-prefix as implemented: strips the prefix from names that have it); import sets naming unknown identifiers and clashing imports are outside the generated domain; mutation of imported bindings is not asserted",
+        technique="property-based testing against a reference model (set algebra over generated library graphs and import sets, Hypothesis-shrunk)"),
     "C18": dict(
         text="(i) sort calls over (srfi 95) sort/sort!/merge/sorted? and (srfi 132) list-sort, list-stable-sort, vector-(stable-)sort(!), list-merge, vector-merge, list-delete-neighbor-dups, vector-find-median, vector-select! with opcode (< >) and closure comparators, with and without key, lists and vectors, every length 0-10 plus up to 2000, keys with heavy duplication in random/sorted/reversed/organ-pipe/constant order and mixed numeric representations; oracle: ordered and a permutation of the input ids, stable where the SRFI says so; (ii) Hypothesis model-based histories for (chibi iset), SRFI 113 sets and bags, SRFI 146 mappings, SRFI 134 ideques, SRFI 117 list queues, SRFI 101 random-access lists and a SRFI 1 / SRFI 133 operation table against Python set/Counter/dict/list models with older persistent versions re-queried after later updates; exploration only",
         note="trusted: the Python models and the per-operation templates; iteration order compared only where the SRFI fixes it; operation tables cover the core operations of each library, not every export",
